@@ -12,6 +12,7 @@ Decided
   U2  firing_rate = (counts outer counts) x bin / duration with counts padded by zeros up to the number of requested ids
   +   window in bins = 2 * floor(window / (2 bin)) + 1: a rounded or ceiled ratio is a recognised wrong form
   +   outside the index-map domain one idiom is still judged: values gathered along np.triu_indices stored along np.tril_indices (or the reverse)
+  +   K1 also on the delay in samples: dropped iff delay >= (half + 1) x bin size (the bound is compared with the specification on a grid of odd windows x bin sizes)
 Not decided: the pair count itself (the shrinking-mask loop is value level).
 """
 import ast
@@ -435,9 +436,31 @@ def run(ctx):
         for pat_ in ('V_mask[:-V_shift][V_lag >= V_wbins // 2] = False', 'V_mask[:-V_shift][V_lag > V_wbins // 2 - 1] = False', 'V_mask[:-V_shift][V_lag > V_wbins] = False',
                      'V_mask[:-V_shift][V_lag >= V_wbins] = False', 'V_mask[:-V_shift][V_lag > V_wbins // 2 + 1] = False'):
             k_bad = k_bad or P.stmt(pat_)
-    tri('C15.K1', k_good or k_bad or 'mask', k_good is not None, k_bad is not None, 'a pair is masked out only when its lag exceeds the half window (strict >)',
-        'pairs are dropped on `%s`: pairs whose lag equals the half window (the edge bin) must be kept, nothing else dropped' % (unparse(k_bad.targets[0]) if k_bad is not None else ''),
-        'the edge test of the mask update was not recognised')
+    k_samp = None
+    if k_good is None and k_bad is None and P.name('V_diff') is not None:
+        # the same test written on the delay in SAMPLES: dropped iff delay >= T, and floor(delay / binsize) > half  <=>  delay >= (half + 1) * binsize. T is a closed
+        # integer expression in (window bins, bin size): it is compared with the specification on a grid of odd window sizes x bin sizes (both sides are polynomials of
+        # degree <= 1 in each variable there, so agreement on the 5 x 5 grid is identity, and one differing point is a counterexample)
+        for op_, shift_ in (('>=', 0), ('>', 1)):
+            st_ = P.stmt('V_mask[:-V_shift][%s %s E_bound] = False' % (P.name('V_diff'), op_))
+            if st_ is not None:
+                wn, bn = P.name('V_wbins') or 'winsize_bins', P.name('V_binsize') or 'binsize'
+                bx = ast.fix_missing_locations(cg.expand(st_.targets[0].slice.comparators[0], stop=(wn, bn)))
+                names_ = {n_.id for n_ in ast.walk(bx) if isinstance(n_, ast.Name)}
+                if names_ <= {wn, bn} and not any(isinstance(n_, (ast.Call, ast.Attribute, ast.Subscript)) for n_ in ast.walk(bx)):
+                    code_ = compile(ast.Expression(body=bx), '<bound>', 'eval')
+                    diffs = [(w_, b_) for w_ in (1, 3, 5, 7, 9) for b_ in (1, 2, 3, 5, 7) if eval(code_, {'__builtins__': {}}, {wn: w_, bn: b_}) + shift_ != (w_ // 2 + 1) * b_]
+                    k_samp = (st_, not diffs, diffs[:1])
+                break
+    if k_samp is not None:
+        st_, ok_, where_ = k_samp
+        tri('C15.K1', st_, ok_, not ok_, 'a pair is masked out only when its delay reaches (half window + 1) bins, i.e. its lag exceeds the half window',
+            'pairs are dropped from a delay of `%s` samples on, which is not (half + 1) x bin size (e.g. window bins, bin size = %s): pairs whose lag equals the half window are lost or pairs '
+            'beyond it are kept' % (unparse(st_.targets[0].slice)[:60], where_[0] if where_ else ''), '')
+    else:
+      tri('C15.K1', k_good or k_bad or 'mask', k_good is not None, k_bad is not None, 'a pair is masked out only when its lag exceeds the half window (strict >)',
+          'pairs are dropped on `%s`: pairs whose lag equals the half window (the edge bin) must be kept, nothing else dropped' % (unparse(k_bad.targets[0]) if k_bad is not None else ''),
+          'the edge test of the mask update was not recognised')
     wh = cg.nodes(ast.While)
     w_good = bool(wh) and (P.m('V_mask[:-V_shift].any()', wh[0].test) or P.m('np.any(V_mask[:-V_shift])', wh[0].test))
     w_bad = False
